@@ -97,7 +97,7 @@ Init == \E i \in 1..Len(Programs) : InitSem(i, Lines, FALSE)
 Next == SemNext
 EmitInv == (EmitOn /\ Final) =>
    Emit([fam |-> "faults", cls |-> Cases[pid].b.c, key |-> Cases[pid].b.key \o "+" \o IntStr(Cases[pid].pad), pid |-> pid,
-         toks |-> Compact(Yield(MinParen(P))), stdin |-> Lines, repl |-> repl,
+         toks |-> Compact(Yield(MinParen(P))), tree |-> P, stdin |-> Lines, repl |-> repl,
          status |-> status, why |-> why, out |-> out, diags |-> diags, natlog |-> natlog, steps |-> steps])
 EveryFaultIsReported == Final /\ Cases[pid].b.c # "clean" => status \in {"error", "unspec"}
 FirstDiagOnly == Len(diags) <= 1
